@@ -365,6 +365,25 @@ class Tracer:
             out.extend(self.edge_pred(t, label))
         return out
 
+    def path_guard_sets(self, bb, limit=400):
+        """one guard list per acyclic entry->bb path (None if there are too many paths)"""
+        ps = self.cfg.paths(0, lambda x: x == bb, limit=limit)
+        if ps is None:
+            return None
+        if bb == 0:
+            return [[]]
+        out = []
+        for path in ps:
+            gs = []
+            for (s, d, label) in path:
+                if label is None:
+                    continue
+                t = self.body.blocks[s].term
+                if t.kind == "switch":
+                    gs.extend(self.edge_pred(t, label))
+            out.append(gs)
+        return out
+
     def edge_pred(self, switch_term, label):
         dt = self.operand(switch_term.discr)
         dty = switch_term.j.get("discr_ty")
